@@ -24,9 +24,9 @@ typedef struct S_class_crab__variable VAR;
 typedef struct S_class_boost__container__dtl__flat_tree FT;
 typedef struct S_class_boost__container__vector VEC;
 typedef struct S_struct_boost__container__vector_alloc_holder HOLD;   /* { f0 = start, f1 = size, f2 = capacity } */
-typedef struct S_class_boost__container__vec_iterator_49 IT;           /* iterator: { pointer } */
-typedef struct S_class_boost__container__vec_iterator_50 CIT;          /* const_iterator */
-typedef struct S_struct_std__pair_51 ITB;                               /* std::pair<iterator, bool> */
+typedef struct S_class_boost__container__vec_iterator_108 IT;           /* iterator: { pointer } */
+typedef struct S_class_boost__container__vec_iterator_109 CIT;          /* const_iterator */
+typedef struct S_struct_std__pair_110 ITB;                               /* std::pair<iterator, bool> */
 unsigned char _ZNK4crab8variableIN4ikos8z_numberE2VNEltERKS4_(VAR *, VAR *);   /* the real crab::variable::operator< */
 #define LT(a, b) (_ZNK4crab8variableIN4ikos8z_numberE2VNEltERKS4_(a, b) != 0)
 #ifndef NT
@@ -85,7 +85,7 @@ DATA *_ZN5boost9container3dtl9flat_treeINS1_4pairIN4crab8variableIN4ikos8z_numbe
  *    ARBITRARY partial renaming of variables: find(v) is "v is renamed" / "the new variable" as uninterpreted functions of
  *    the index of v; a hit is a new pair object whose `second` is a well-formed variable with the new index (its type
  *    is that of v).  This is the universally quantified parameter of the proof, not an assumption about crab code. */
-typedef struct S_struct_std__pair_58 RPAIR;     /* std::pair<const variable_t, variable_t> */
+typedef struct S_struct_std__pair_124 RPAIR;     /* std::pair<const variable_t, variable_t> */
 typedef struct S_struct_RM RM;
 unsigned char __CPROVER_uninterpreted_rho_has(uint64_t);
 uint64_t __CPROVER_uninterpreted_rho(uint64_t);
